@@ -26,7 +26,7 @@ func init() {
 const maxWorkers = 4
 
 func run(c *vf.Ctx) {
-	c.Rule("case = (generated SQL text, way of sending it). Texts: plain SELECTs (control), EXPLAIN / EXPLAIN QUERY PLAN of writes, CTE+DML, INSERT/UPDATE/DELETE … RETURNING, PRAGMAs with side effects (user_version=, application_id=, incremental_vacuum, optimize, auto_vacuum, page_size, encoding …), ATTACH/DETACH (memory, file, URI, followed by DDL/DML), temp tables/views/triggers, VACUUM / VACUUM INTO / REINDEX / ANALYZE, multi-statement texts whose first statement is one SQLite calls read-only (SELECT, WITH, VALUES, EXPLAIN, PRAGMA read, BEGIN, SAVEPOINT, ATTACH, comment, empty statement) and a later one writes, BEGIN IMMEDIATE/EXCLUSIVE/COMMIT/ROLLBACK/SAVEPOINT texts, plain writes, texts with positional and named parameters; every write carries a token unique to the text so that executing it always changes the logical dump. Ways: GET /db/query, POST /db/query (JSON or text/plain), POST /db/request with the text alone, POST /db/request with the text next to the harness's own no-op write; on the leader or a follower; level none/weak/linearizable/strong/auto; with/without ?transaction (80 ways; quick sends each text in 6 of them, thorough in 12, always including /db/request at level strong, the mixed request and the query endpoint on a follower and at level strong). non-trivial = request whose text is not a control SELECT; distinct by text and way")
+	c.Rule("case = (generated SQL text, way of sending it). Texts: plain SELECTs (control), EXPLAIN / EXPLAIN QUERY PLAN of writes, CTE+DML, INSERT/UPDATE/DELETE … RETURNING, PRAGMAs with side effects (user_version=, application_id=, incremental_vacuum, optimize, auto_vacuum, page_size, encoding …), ATTACH/DETACH (memory, file, URI, followed by DDL/DML), temp tables/views/triggers, VACUUM / VACUUM INTO / REINDEX / ANALYZE, multi-statement texts whose first statement is one SQLite calls read-only (SELECT, WITH, VALUES, EXPLAIN, PRAGMA read, BEGIN, SAVEPOINT, ATTACH, comment, empty statement) and a later one writes, BEGIN IMMEDIATE/EXCLUSIVE/COMMIT/ROLLBACK/SAVEPOINT texts, plain writes, texts with positional and named parameters; every write carries a token unique to the text so that executing it always changes the logical dump. Ways: GET /db/query, POST /db/query (JSON or text/plain), POST /db/request with the text alone, POST /db/request with the text next to the harness's own no-op write; on the leader or a follower; level none/weak/linearizable/strong/auto; with/without ?transaction (80 ways; quick sends each text in 6 of them, thorough in 12, always including /db/request at level strong, the mixed request and the query endpoint on a follower). non-trivial = request whose text is not a control SELECT; distinct by text and way")
 	c.Assume("state of a node = bytes of db.sqlite and db.sqlite-wal read from disk at quiescence (no request in flight, every node's FSM index caught up with the leader's), the logical dump of a private copy of these two files (sqlref.DumpFile: schema, all rows with storage classes, user_version, application_id), file sizes, raft commit/applied/db-applied index; the dump is recomputed whenever the bytes differ")
 	c.Assume("which statements a unified request treats as read-only is taken from the real code: the statement goes through command/sql.Process and Store.RORWCount exactly as in the HTTP handler and Store.Request; a unified request is judged when rqlite treats the generated text as read-only (alone, or next to the harness's own `DELETE FROM t1 WHERE 0`), otherwise its effect is accepted as a write and the baseline is re-read")
 	c.Assume("snapshots are disabled in the harness cluster (they checkpoint the WAL legitimately); files created by ATTACH / VACUUM INTO outside the node's database are counted, not judged; temp objects are connection-local and not part of the dump; after a text containing BEGIN/SAVEPOINT was sent to the unified endpoint the harness sends ROLLBACK through /db/execute so that an open transaction cannot hide later changes")
@@ -45,9 +45,9 @@ func run(c *vf.Ctx) {
 		return
 	}
 
-	nTexts := c.N(600, 6000)
+	nTexts := c.N(480, 4000)
 	nCombos := c.N(6, 12)
-	batch := c.N(150, 250)
+	batch := c.N(120, 250)
 	type job struct{ lo, hi int }
 	jobs := make(chan job, nTexts/batch+1)
 	for lo := 0; lo < nTexts; lo += batch {
